@@ -32,18 +32,21 @@ Definition chain_tree : ltree :=
 Definition chain_expr : expr :=
   EOp "<" true false None [EOp "<" true false None [ECol "a"; ECol "b"]; ECol "c"].
 Definition chain_env : env := [("a", PInt (-3)); ("b", PInt (-3)); ("c", PInt 5)].
-Definition chain_cfg : cfg := mkcfg ["<"] false.
+Definition chain_cfg : cfg := mkcfg ["<"].
 Definition no_fsem : fsem_t := fun _ _ => None.
 
-Lemma chain_refuted :
-  reject_chains chain_cfg = false /\ lark_of chain_toks = Some chain_tree /\
-  parse_tree chain_cfg ["a"; "b"; "c"] chain_tree = Ok chain_expr /\
+(* regression of the defect repaired by 1b8c7b2: the chain parses (it is in the grammar), Python reads it as a
+   conjunction (False on these operands), the left-nested expression object the walker used to build says True,
+   and the walker now rejects the tree *)
+Lemma chain_rejected :
+  lark_of chain_toks = Some chain_tree /\
   py_meaning no_fsem chain_env chain_tree = Some (PBool false) /\
-  eval no_fsem chain_env chain_expr = Some (PBool true).
+  eval no_fsem chain_env chain_expr = Some (PBool true) /\
+  parse_tree chain_cfg ["a"; "b"; "c"] chain_tree = Err.
 Proof. repeat split; vm_compute; reflexivity. Qed.
 
 (* ---- round-trip witnesses *)
-Definition kcfg : cfg := mkcfg ["+"; "-"; "**"; "&"; "is_in"; "abs"] false.
+Definition kcfg : cfg := mkcfg ["+"; "-"; "**"; "&"; "is_in"; "abs"].
 Definition kdd : list string := ["a"; "b"; "c"; "p"].
 
 Definition negzero_src : dtree := DPower (DPar (DFactor "-" (DNum (TFloat (Some 0%Q))))) (DNum (TInt 2)).
@@ -98,7 +101,7 @@ Definition sample_src : dtree :=
            [("+", DChain 9 (DCall (DAttr (DName "b") "abs") [] false)
                     [("*", DPar (DChain 8 (DName "c") [("-", DNum (TInt 1))]))])])
         [("<", DNum (TInt 3))])].
-Definition sample_cfg : cfg := mkcfg ["and"; "=="; "<"; "+"; "-"; "*"; "**"; "abs"] false.
+Definition sample_cfg : cfg := mkcfg ["and"; "=="; "<"; "+"; "-"; "*"; "**"; "abs"].
 Definition sample_env : env := [("a", PInt 3); ("b", PInt (-2)); ("c", PInt 5); ("p", PBool false)].
 Definition sample_e : expr :=
   EOp "and" true false None
@@ -111,7 +114,7 @@ Definition sample_e : expr :=
         EVal (PInt 3)]].
 
 Lemma sample_guards :
-  wfn sample_src = true /\ src_ok sample_src = true /\ no_chain (strip sample_src) = true /\
+  wfn sample_src = true /\ src_ok sample_src = true /\
   parse sample_cfg kdd (unparse sample_src) = Ok sample_e /\ expr_kf_ok sample_e = true /\
   printable sample_cfg kdd sample_e = true /\ is_term sample_e = true /\
   py_meaning concrete_fsem sample_env (strip sample_src) = Some (PBool true) /\
